@@ -885,7 +885,39 @@ def rewrite_atoms(r: "Rat", fn) -> "Rat":
 
 
 def replace_atoms(r: "Rat", mapping: Dict) -> "Rat":
-    """Replace atoms (by structural key) everywhere in r, nested occurrences included."""
+    """Replace atoms (by structural key) everywhere in r, nested occurrences included.  Sub-terms that do not
+    mention any of the atoms are reused as they are."""
     if not mapping:
         return r
-    return rewrite_atoms(r, lambda a_: mapping.get(a_.skey))
+    keys = set(mapping)
+
+    def touched(x: "Rat") -> bool:
+        return any(a_.skey in keys for a_ in x.all_atoms())
+    if not touched(r):
+        return r
+
+    def go(x: "Rat") -> "Rat":
+        if not touched(x):
+            return x
+
+        def poly(p) -> Rat:
+            acc = Rat.const(0)
+            for m, c in p.items():
+                term = Rat.const(c)
+                for a_, e_ in m:
+                    term = term.mul(atom(a_).pow(e_))
+                acc = acc.add(term)
+            return acc
+
+        def atom(a_: Atom) -> Rat:
+            if a_.skey in keys:
+                return mapping[a_.skey]
+            if a_.kind == "fn" and a_.args and any(touched(y) for y in a_.args):
+                base = apply_fn(a_.name, tuple(go(y) for y in a_.args), a_.array, a_.extra)
+                ats = base.atoms()
+                if len(ats) == 1 and ats[0].skey in keys and base.equals(Rat.from_atom(ats[0])):
+                    return mapping[ats[0].skey]
+                return base
+            return Rat.from_atom(a_)
+        return poly(x.num).div(poly(x.den))
+    return go(r)
